@@ -46,7 +46,11 @@ CLAIMED = {
              "request, each within budget, all but the last full, [] for the empty request, Err for a budget without payload "
              "room, no 64-bit address overflow (strong induction, no bound). The model is tied to /repo by running the real "
              "iterators and the extracted model on the same boundary+random cases, and the property predicate is evaluated by "
-             "the harness on the exhaustive grid 0..4096 x 0..600.",
+             "the harness on the exhaustive grid 0..4096 x 0..600. TIE TO THE SOURCE CODE: tools/translate_chunks.py regenerates gen/ReadChunks.v on every run from ReadMem::chunks, "
+             "ReadMemChunks::next (an iterator mutating its fields, executed symbolically) and ReadMem::maximum_read_length "
+             "over lib/RustInt.v; C10_read_init_from_source, C10_read_next_from_source and "
+             "C10_maximum_read_length_from_source prove them equal to the model's functions for every value of the fields' "
+             "types (the proof does not depend on the order of independent field updates).",
         note="Trusted: Coq kernel, hand-written model (model/Chunks.v) validated by correspondence, extraction "
              "(ExtrOcamlBasic) cross-checked against vm_compute on a sample, ocaml/driver.ml, rust/h_proto, tools/c10.py. "
              "Debug-build overflow semantics (panic) modelled.",
